@@ -16,14 +16,16 @@ res() { echo "$name: $1"; }
 git apply --check $src/patch.diff 2>/dev/null || { res "REJECT patch does not apply to HEAD"; exit 1; }
 if git apply --numstat $src/patch.diff | awk '{print $3}' | grep -q -e '_test\.go$' -e 'verif_hooks.go' -e '^go\.mod$' -e '^go\.sum$'; then res "REJECT touches test/hook/module files"; exit 1; fi
 demo=$(ls $src/demo/*_test.go | head -1)
+race=""
+python3 -c "import json,sys; sys.exit(0 if json.load(open('$src/meta.json')).get('demo_needs_race') else 1)" && race="-race"
 cp $demo $wt/zz_seeded_demo_test.go
-out0=$(go test -vet=off -count=1 -run TestSeededDemo . 2>&1); rc0=$?
+out0=$(go test $race -vet=off -count=1 -run TestSeededDemo . 2>&1); rc0=$?
 [ $rc0 -eq 0 ] || { res "REJECT demo fails WITHOUT the change"; echo "$out0" | tail -5; exit 1; }
 echo "$out0" | grep -q "no tests to run" && { res "REJECT demo has no TestSeededDemo"; exit 1; }
 git apply $src/patch.diff
 go build ./... >/dev/null 2>&1 || { res "REJECT does not build"; exit 1; }
 go vet -tags verif . >/dev/null 2>&1 || { res "REJECT go vet -tags verif fails"; exit 1; }
-out1=$(go test -vet=off -count=1 -run TestSeededDemo . 2>&1); rc1=$?
+out1=$(go test $race -vet=off -count=1 -run TestSeededDemo . 2>&1); rc1=$?
 [ $rc1 -ne 0 ] || { res "REJECT demo passes WITH the change"; exit 1; }
 rm $wt/zz_seeded_demo_test.go
 suite=$(go test -vet=off -count=1 -timeout 25m ./... 2>&1); rcs=$?
